@@ -142,13 +142,15 @@ void h_colorder(void) {
   in_opt.etree = in_etree; in_opt.colcnt_h = in_colcnt; in_opt.part_super_h = in_part; in_opt.perm_c = in_perm_c;
   sp_colorder(&in_A, in_perm_c, &in_opt, &in_AC);
   __CPROVER_assert(0, "canary: sp_colorder returns");
+#ifndef OOM
   if (in_A.ncol == CAP) __CPROVER_assert(0, "canary: full capacity reachable");
+#endif
 #if PATH != 3
   if (in_A.ncol == 0) __CPROVER_assert(0, "canary: empty matrix reachable");
 #endif
 #if PATH == 1
   if (g_calls_post == 0) __CPROVER_assert(0, "canary: refactorization path");
-#else
+#elif !defined(OOM)
   if (g_calls_post == 1 && in_A.ncol >= 3 && in_post[1] == 2 && in_perm_c[0] == 2 && g_perm0[0] == 1) __CPROVER_assert(0, "canary: non-trivial postorder composed");
 #endif
 #if PATH == 2
